@@ -9,7 +9,8 @@ E(m, t, p) == [module |-> m, test |-> t, params |-> p]
 KnownPool == { E("qartod", "gross_range_test", "gross_full"), E("qartod", "spike_test", "spike_scalar"),
                E("qartod", "climatology_test", "clim_nested"), E("qartod", "location_test", "empty"),
                E("argo", "pressure_increasing_test", "null"), E("axds", "valid_range_test", "valid_mixed") }
-UnknownPool == { E("not_a_module", "some_test", "empty"), E("qartod", "not_a_test", "gross_full") }
+UnknownPool == { E("not_a_module", "some_test", "empty"), E("qartod", "not_a_test", "gross_full"),
+                 E("qartod", "not_a_test", "null") }
 Pool == KnownPool \cup UnknownPool
 
 EntryLists == { <<e>> : e \in Pool }
